@@ -25,6 +25,7 @@ import random
 import select
 import shutil
 import signal
+import time
 
 from hio.base.during import Subery
 from hio.base.hier import Durq, Dusq, Bag, IceBag, Hold
@@ -39,7 +40,7 @@ RULE = ("operation histories over {push v, pull, extend/update [..], remove v (D
         "alphabet is run once per reopen position (after op 1..len), so a close/reopen is tried between every two operations; "
         "random histories of length 10..60 over a richer alphabet (push None, pull(emptive=False), a second queue at a "
         "prefix-related key in the same sub-database) get 1..4 reopens at random positions; thorough also enumerates length-5 "
-        "histories as far as the time budget goes and runs forked-child crash cases (SIGKILL at an acknowledged prefix or at the "
+        "histories as far as a soft time limit goes and runs forked-child crash cases (SIGKILL at an acknowledged prefix or at the "
         "n-th durable write). Non-trivial = at least one reopen/crash happened while the model was non-empty and at least one "
         "operation changed the content; distinct = by (class, operation outcomes, reopen positions, content at each reopen).")
 ASSUMPTIONS = ["single process, single-threaded use of one Subery at a time; a crash is the death of the process (SIGKILL), "
@@ -58,12 +59,13 @@ LEVEL_TEXT = ("Every operation of every history is judged against the model in m
               "unbounded histories or for power-loss crashes.")
 LEVEL_NOTE = "trusted: the 40-line queue/ordered-set models, py-lmdb raw cursors, Linux fork/SIGKILL semantics"
 NSHARDS = {"quick": 16, "thorough": 16}
-TIMEOUT_S = {"quick": 300, "thorough": 1500}
-BUDGET_S = {"quick": 120, "thorough": 540}
+TIMEOUT_S = {"quick": 900, "thorough": 2400}       # watchdog only
+BUDGET_S = {"quick": 600, "thorough": 1800}        # driver backstop; the module cuts its OPTIONAL phases itself after SOFT_S
+SOFT_S = {"quick": 40, "thorough": 240}
 REQUIRE = {
     "quick": {"enum_phase_completed": 16, "ops_checked": 10000, "reopens_checked": 3000, "reopens_nonempty": 1000, "raw_durable_reads": 10000,
               "pulls_nonempty": 1000},
-    "thorough": {"enum_phase_completed": 16, "ops_checked": 100000, "reopens_checked": 50000, "reopens_nonempty": 20000, "raw_durable_reads": 100000,
+    "thorough": {"enum_phase_completed": 16, "crash_phase_completed": 16, "ops_checked": 100000, "reopens_checked": 50000, "reopens_nonempty": 20000, "raw_durable_reads": 100000,
                  "pulls_nonempty": 10000, "crash_kills": 100, "crash_kills_nonempty": 40},
 }
 EXHAUSTIVE = {"quick": "all op histories of length <= 3 over the 9-op Durq and 10-op Dusq alphabets x every reopen position",
@@ -132,6 +134,8 @@ def _crash_case(rng):
 
 
 def cases(tier, seed, shard, nshards):
+    t0 = time.monotonic()
+    late = lambda: time.monotonic() - t0 > SOFT_S[tier]
     maxlen = 3 if tier == "quick" else 4
     i = 0
     for ln in range(1, maxlen + 1):
@@ -144,26 +148,36 @@ def cases(tier, seed, shard, nshards):
     yield {"kind": "marker", "q": "-", "what": "enum_phase_completed"}   # REQUIREd: the EXHAUSTIVE claim depends on it
     rng = random.Random(f"{seed}:C23:{shard}")
     if tier == "thorough":
-        for _ in range(1600 // nshards):
+        for _ in range(960 // nshards):
             yield _crash_case(rng)
+        yield {"kind": "marker", "q": "-", "what": "crash_phase_completed"}
+    # from here on the phases are optional depth: a minimum is always run, the rest only while the shard is younger than
+    # SOFT_S (the enumeration and the crash cases above are never cut; on a loaded machine they may use the time alone)
     nrand = (1280 if tier == "quick" else 12000) // nshards
-    for _ in range(nrand):
+    nmin = (320 if tier == "quick" else 1600) // nshards
+    for n in range(nrand):
+        if n >= nmin and late():
+            yield {"kind": "marker", "q": "-", "what": "optional_phases_cut_by_soft_limit"}
+            return
         qk = rng.choice(["durq", "dusq"])
         two = rng.random() < 0.4
-        n = rng.randint(10, 60)
-        ops = _rand_ops(rng, qk, n, two)
-        pts = sorted(set(rng.randint(1, n) for _ in range(rng.randint(1, 4))))
+        ln = rng.randint(10, 60)
+        ops = _rand_ops(rng, qk, ln, two)
+        pts = sorted(set(rng.randint(1, ln) for _ in range(rng.randint(1, 4))))
         key, other = rng.choice([["q", "qq"], ["a_b", "a"], ["q", "q_r"], ["x1", "x"], ["mydurq", "my"]])
         yield {"kind": "rand", "q": qk, "key": key, "other": other if two else None, "ops": ops, "reopen": pts,
                "how": rng.choice(["new", "new", "same"])}
     if tier == "thorough":
-        # length-5 histories, every reopen position, in a seed-dependent order, until the time budget stops the shard
+        # length-5 histories, every reopen position, in a seed-dependent order, as far as the soft limit allows
         for qk in ("durq", "dusq"):
             al = ALPHA[qk]
             n5 = len(al) ** 5
             mine = [j for j in range(shard, n5, nshards)]
             rng.shuffle(mine)
             for j in mine[: 16000 // nshards]:
+                if late():
+                    yield {"kind": "marker", "q": "-", "what": "optional_phases_cut_by_soft_limit"}
+                    return
                 hist = []
                 for _ in range(5):
                     j, r = divmod(j, len(al))
